@@ -29,7 +29,7 @@ REPO = Path(os.environ.get("VERIF_REPO", "/repo"))
 ALLOWED_AXIOMS = {"propext", "Classical.choice", "Quot.sound"}
 FLAG = {"GOOD": ".good", "UNKNOWN": ".unknown", "SUSPECT": ".suspect", "FAIL": ".fail", "MISSING": ".missing"}
 PYOP = {"add": ".add", "sub": ".sub", "mul": ".mul", "truediv": ".truediv", "pow": ".pow"}
-PIN_PROPS = {"C01": ["flag_codes"], "C04": ["flag_codes", "priorities", "src_qartod_compare"], "C19": ["cf_safe"], "C20": ["fx_ops"],
+PIN_PROPS = {"C01": ["flag_codes"], "C04": ["flag_codes", "priorities", "src_qartod_compare"], "C19": ["cf_safe"], "C20": ["fx_ops"], "C08": ["src_climatology_test"],
              "C03": ["defaults_valid", "src_gross_range_test", "src_valid_range_test"], "C09": ["default_spike", "src_spike_test"],
              "C11": ["default_flat", "src_flat_line_test"], "C12": ["default_atten"], "C14": ["default_location", "src_location_test"],
              "C10": ["src_rate_of_change_test", "src_speed_test"], "C13": ["src_density_inversion_test", "src_pressure_increasing_test"]}
@@ -53,6 +53,10 @@ SRC_FUNCS = {
                        "IoosQc.Gen.flat_line_test inp ts sus fail tol = flatLineTest inp ts sus fail tol", "inp ts sus fail tol"),
     "qartod_compare": ("IoosQc.NpSrc.C04_src_compare", "(vs : List (List IoosQc.Cell))",
                        "IoosQc.Gen.qartod_compare vs = qartodCompare vs", "vs"),
+    "climatology_test": ("IoosQc.NpSrc.C08_src_climatology",
+                         "(periodOf : Period → Int → Int) (ms : List Member) (inp : List V) (ts : List Int) (z : List V) "
+                         "(ht : ts.length = inp.length) (hz : z.length = inp.length)",
+                         "IoosQc.Gen.climatology_test periodOf ms inp ts z = climatologyTest periodOf ms inp ts z", "periodOf ms inp ts z ht hz"),
     "valid_range_test": ("IoosQc.NpSrc.C03_src_valid", "(inp : List V) (span : V × V) (si ei : Bool) (junk : List Np.Fl)",
                          "IoosQc.Gen.valid_range_test inp span si ei junk = validRange span.1 span.2 si ei inp", "inp span si ei junk"),
 }
@@ -293,14 +297,14 @@ def lean_for(table: str, val) -> tuple[str, str]:
 def _kernel_check(prop: str, tag: str, parts, finals) -> dict:
     """Write the generated Lean file, let the kernel check it (cached by content), return status / axioms / log."""
     text = ("/- generated by harness/extract.py from the current source of ioos_qc; checked with `lake env lean` -/\n"
-            "import IoosQc.Theorems.SourcePin\nimport IoosQc.Theorems.NpSrc\nimport IoosQc.Theorems.NpSrc2\nimport IoosQc.Theorems.NpSrc3\nimport IoosQc.Theorems.NpSrc4\nopen IoosQc\n\n" + "\n".join(parts) + "\n"
+            "import IoosQc.Theorems.SourcePin\nimport IoosQc.Theorems.NpSrc\nimport IoosQc.Theorems.NpSrc2\nimport IoosQc.Theorems.NpSrc3\nimport IoosQc.Theorems.NpSrc4\nimport IoosQc.Theorems.NpSrc5\nopen IoosQc\n\n" + "\n".join(parts) + "\n"
             + "".join(f"#print axioms {f}\n" for f in finals))
     sha = hashlib.sha1(text.encode()).hexdigest()[:16]
     # the key also covers the compiled libraries the file is checked against
     stamp = "".join(hashlib.sha1(o.read_bytes()).hexdigest()[:8] if o.exists() else "nobuild"
                     for o in (LEAN / ".lake/build/lib/lean/IoosQc/Theorems/SourcePin.olean", LEAN / ".lake/build/lib/lean/IoosQc/Theorems/NpSrc.olean",
                               LEAN / ".lake/build/lib/lean/IoosQc/Theorems/NpSrc2.olean", LEAN / ".lake/build/lib/lean/IoosQc/Theorems/NpSrc3.olean",
-                              LEAN / ".lake/build/lib/lean/IoosQc/Theorems/NpSrc4.olean"))
+                              LEAN / ".lake/build/lib/lean/IoosQc/Theorems/NpSrc4.olean", LEAN / ".lake/build/lib/lean/IoosQc/Theorems/NpSrc5.olean"))
     d = LEAN / ".lake" / "pins"
     d.mkdir(parents=True, exist_ok=True)
     f = d / f"{prop}{tag}_{sha}.lean"
